@@ -963,9 +963,14 @@ func (g *generatorObject) delegate(v Value) Value {
 }
 
 func (g *generatorObject) tryCallDelegated(fn func() (Value, bool)) (ret Value, done bool) {
+	// the generator is running while it calls a method of the iterator it delegates to
+	// (a re-entrant call, e.g. yield* of the generator itself, must fail instead of recursing)
+	prevState := g.state
+	g.state = genStateExecuting
 	ex := g.val.runtime.try(func() {
 		ret, done = fn()
 	})
+	g.state = prevState
 	if ex != nil {
 		g.delegated = nil
 		g.state = genStateExecuting
